@@ -21,6 +21,7 @@ class Sys:
         e.sys = self
         self.resolver = Resolver(functions, repo)
         e.tombstone_moves = True
+        e.strict_opaque = True
         models.install_common(e)
         models.install_resolvers(e)
         S.install(e, self.resolver)
@@ -38,7 +39,7 @@ class Sys:
         ins(r'^<A as (actor::)?Actor>::stopped$', self.m_user('stopped'))
         ins(r'^<A as (handler::)?Handler<.*>>::handle$', self.m_user('handle'))
         ins(r'^<A as (handler::)?StreamHandler<.*>>::(handle|finished)$', self.m_user('stream'))
-        ins(r'^<A as Default>::default$', self.m_default_actor)
+        ins(r'^<(A|Self) as Default>::default$', self.m_default_actor)
         ins(r'^<R as (actor::restart_strategy::)?RestartStrategy<A>>::refresh$', self.m_refresh)
         # closures / dyn dispatch
         ins(r' as Fn(Once|Mut)?<.*>>::call(_once|_mut)?$', self.m_call_closure)
@@ -46,9 +47,12 @@ class Sys:
         ins(r'^<(.*) as ToOwned>::to_owned$', lambda e, st, fr, t, a: e.dispatch(st, fr, t, a, re.sub(r' as ToOwned>::to_owned$', ' as Clone>::clone', t.func)))
         # misc std
         ins(r'^std::any::type_name::<', lambda e, st, fr, t, a: VConst('type_name'))
+        ins(r'^std::mem::drop::<', self.m_mem_drop)
+        ins(r'^std::mem::forget::<', lambda e, st, fr, t, a: UNIT)
         ins(r'^TypeId::of::<(.*)>$', lambda e, st, fr, t, a: VConst('TypeId:' + re.match(r'^TypeId::of::<(.*)>$', t.func, re.S).group(1)))
-        ins(r'^<LazyLock<AtomicU64> as Deref>::deref$', lambda e, st, fr, t, a: VConst('CONTEXT_ID_COUNTER'))
-        ins(r'^AtomicU64::fetch_add$', self.m_ctx_id)
+        ins(r'^<LazyLock<Atomic(U64|<u64>)> as Deref>::deref$', lambda e, st, fr, t, a: VConst('CONTEXT_ID_COUNTER'))
+        ins(r'^Atomic(U64)?(::<u64>)?::fetch_add$', self.m_ctx_id)
+        ins(r'^<LazyLock<async_lock::RwLock<HashMap<.*>>> as Deref>::deref$', self.m_registry)
         ins(r'^<HashMap<.*> as Default>::default$', lambda e, st, fr, t, a: VAgg(name='HashMap', extra={'items': ()}))
         ins(r'^<EnvironmentConfig as Default>::default$', lambda e, st, fr, t, a: VAgg(name='EnvironmentConfig', fields={('f', 0): NONE, ('f', 1): VScalar(False)}, extra={'fieldnames': ('timeout', 'fail_on_timeout')}))
         ins(r'^futures::stream::poll_fn::<', lambda e, st, fr, t, a: VAgg(name='PollFn', fields={('f', 0): a[0]}))
@@ -83,6 +87,7 @@ class Sys:
 
     def resolve_fn_item(self, text):
         t = text.strip()
+        t = re.sub(r' as ToOwned>::to_owned$', ' as Clone>::clone', t)
         try:
             return self.resolver.resolve(t)
         except Unsupported:
@@ -95,6 +100,14 @@ class Sys:
         if fn.nargs != len(args):
             raise Unsupported(f"arity mismatch inlining {fn.name} for {t.func[:80]}")
         e.push_call(st, fn, args, ret_dest=t.dest, ret_bb=t.target, unwind_bb=t.unwind)
+        return None
+
+    def m_mem_drop(self, e, st, fr, t, args):
+        ty = re.match(r'^std::mem::drop::<(.*)>$', t.func, re.S).group(1)
+        fr.bb = t.target
+        e.write_place(st, fr, t.dest, UNIT)
+        depth = len(st.frames)
+        self.drop_value(st, args[0], ty, 'mem::drop')
         return None
 
     def m_msg_clone(self, e, st, fr, t, args):
@@ -203,6 +216,16 @@ class Sys:
         n = st.meta.get('ctx_ids', 0)
         st.meta['ctx_ids'] = n + 1
         return VScalar(n)
+
+    def m_registry(self, e, st, fr, t, args):
+        """the global REGISTRY: LazyLock<RwLock<HashMap<TypeId, AnyBox>>> - one lock object per state"""
+        oid = st.meta.get('registry')
+        if oid is None:
+            lock = st.alloc(VAgg(name='model:lock', fields={('f', 0): VAgg(name='HashMap', fields={}, extra={'keys': ()})},
+                                 extra={'writer': False, 'readers': 0, 'ver': 0}))
+            oid = st.alloc(S.handle('AsyncLock', lock))
+            st.meta['registry'] = oid
+        return VRef(('obj', oid), (), False)
 
     def m_clone_box(self, e, st, fr, t, args):
         """dyn_clone::clone_box(&*boxed_closure) -> Box<dyn Trait>: clones the closure value (its upvars are cloned
@@ -454,7 +477,10 @@ class Sys:
             raise Unsupported(f"cannot resolve {path}")
         depth = len(st.frames)
         e.push_call(st, fn, list(args))
+        ny = st.meta.get('no_yield')
+        st.meta['no_yield'] = True
         leaves = list(e.run(st, stop_depth=depth))
+        st.meta['no_yield'] = ny
         if len(leaves) != 1 or leaves[0] is not st:
             raise Unsupported(f"nested call to {path} forked")
         rv = st.result if st.status == 'returned' else st.meta.pop('ret', None)
@@ -511,6 +537,19 @@ def _synthetic_poll_fn():
 POLL_ANY = _synthetic_poll_fn()
 
 
+def mt_yield_hook(e, st, fr, t):
+    """multi-threaded mode: a task may be preempted right before it acquires or releases a lock of async-lock (the
+    points where another worker thread can observe / change the protected state)"""
+    if t.kind == 'call' and t.func and re.search(r'async_lock::futures::(Write|Read|Lock)<.*> as (futures::)?Future>::poll$', t.func):
+        return True
+    if t.kind == 'drop':
+        ty = _place_ty(fr.fn, t.place) or ''
+        if re.search(r'(RwLockWriteGuard|RwLockReadGuard|MutexGuard)<', ty):
+            v = e.read_place(st, fr, t.place)
+            return isinstance(v, VAgg) and v.name == 'LockGuard'
+    return False
+
+
 class Msg:
     @staticmethod
     def new(ident):
@@ -538,7 +577,11 @@ class Program:
         e = self.eng
         depth = len(st.frames)
         e.push_call(st, fn, list(args))
+        ny = st.meta.get('no_yield')
+        st.meta['no_yield'] = True
         leaves = list(e.run(st, stop_depth=depth))
+        for l in leaves:
+            l.meta['no_yield'] = ny
         if len(leaves) != 1 and not allow_fork:
             raise Unsupported(f"synchronous call to {fn.name} forked into {len(leaves)} paths")
         out = []
@@ -608,13 +651,27 @@ class Program:
             return (o.extra.get('ver', 0), o.extra.get('strong'), o.extra.get('weak'))
         return None
 
-    def poll_future_obj(self, st, oid):
-        """poll the future stored in st.objs[oid] once; yields (state, Poll value)"""
+    def poll_future_obj(self, st, oid, task=None):
+        """poll the future stored in st.objs[oid] once; yields (state, Poll value).  In multi-threaded mode the poll
+        may stop at a yield point: the state is yielded with value 'YIELD' and the task's frames are parked in
+        st.meta[('frames', task)]; the next step of that task resumes them."""
         e = self.eng
         depth = len(st.frames)
-        st.meta['blocked_on'] = frozenset()
-        e.push_call(st, POLL_ANY, [VAgg(name='Pin', fields={('f', 0): VRef(('obj', oid), (), True)}), VSym('cx')])
+        parked = st.meta.get(('frames', task)) if task else None
+        if parked:
+            st.frames = st.frames + [f.clone() for f in parked]
+            st.meta[('frames', task)] = None
+        else:
+            st.meta['blocked_on'] = frozenset()
+            e.push_call(st, POLL_ANY, [VAgg(name='Pin', fields={('f', 0): VRef(('obj', oid), (), True)}), VSym('cx')])
         for l in e.run(st, stop_depth=depth):
+            if l.status == 'yield':
+                l.status = 'running'
+                l.meta[('frames', task)] = tuple(l.frames[depth:])
+                l.frames = l.frames[:depth]
+                l.event('yield_point', task)
+                yield l, 'YIELD'
+                continue
             if l.status == 'returned' or (l.status == 'running' and len(l.frames) == depth):
                 rv = l.result if l.status == 'returned' else l.meta.pop('ret', None)
                 l.status = 'running'
@@ -657,7 +714,11 @@ class Program:
         if kind == 'client':
             yield from self.step_client(st, name)
             return
-        for l, pv in self.poll_future_obj(st, oid):
+        for l, pv in self.poll_future_obj(st, oid, task=name):
+            if pv == 'YIELD':
+                self.set_task(l, name, status='ready')
+                yield l
+                continue
             if l.status == 'panicked':
                 # the task died by unwinding: its cleanup blocks have run; the executor drops what is left of it
                 l.status = 'running'
@@ -711,7 +772,10 @@ class Program:
         depth = len(st.frames)
         self.sys.drop_value(st, val, ty, why)
         if len(st.frames) > depth:
+            ny = st.meta.get('no_yield')
+            st.meta['no_yield'] = True
             leaves = list(e.run(st, stop_depth=depth))
+            st.meta['no_yield'] = ny
             if len(leaves) != 1 or leaves[0] is not st:
                 raise Unsupported("drop glue forked")
             if st.status == 'returned':
@@ -745,7 +809,11 @@ class Program:
 
     def _poll_client_fut(self, st, name, oid):
         e = self.eng
-        for l, pv in self.poll_future_obj(st, oid):
+        for l, pv in self.poll_future_obj(st, oid, task=name):
+            if pv == 'YIELD':
+                self.set_task(l, name, status='ready')
+                yield l
+                continue
             if l.status != 'running':
                 yield l
                 continue
